@@ -103,6 +103,18 @@ def main(argv=None):
             replay_rec = json.load(f)
         tier, seed = replay_rec.get("tier", tier), replay_rec.get("seed", seed)
     shards = mod.shards(tier)
+    # every numpy shard that varies memory layouts gets a sibling that varies element types instead (answers judged, refusals counted)
+    for s in [s for s in shards if s.get("forms") and s.get("backend") == "np"]:
+        # compiled kernels specialise per element type (seconds per signature): the JIT sibling uses one type per run, chosen by
+        # seed and shard, mixed with int64; the interpreted sibling draws from all of them
+        d = dict(s, dtypes=1, name=s["name"].replace("forms", "dtypes"))
+        d.pop("forms")
+        shards.append(d)
+        e = dict(d, mode="interp", name=d["name"].replace("jit", "interp"))
+        for k in ("n", "big", "chain"):
+            if isinstance(e.get(k), int):
+                e[k] = max(1, e[k] // 3)
+        shards.append(e)
     if replay_rec:
         shards = [s for s in shards if s["name"] == replay_rec["shard"]]
     if a.only:
